@@ -87,6 +87,11 @@ func (t *decTr) stmt(s ast.Stmt) string {
 		// `_, err = f(...)`: an effect; the call is recorded, the named results are assigned its text
 		if len(x.Lhs) == 2 && len(x.Rhs) == 1 {
 			if c, ok := x.Rhs[0].(*ast.CallExpr); ok {
+				// the variable that receives the error is part of the call's text unless it is the
+				// conventional `err` (or blank): a test of `readErr` after a call that assigned `err` is seen
+				if id, isId := x.Lhs[1].(*ast.Ident); isId && id.Name != "err" && id.Name != "_" {
+					return "DCall " + q(t.render(c)+" -> "+t.render(x.Lhs[0])+", "+id.Name)
+				}
 				return "DCall " + q(t.render(c))
 			}
 			// `v, ok := x.(T)`: v is assigned the assertion's text, ok (unless blank) "ok of <text>"
